@@ -17,7 +17,7 @@ RULE = ("case = (solver x noise cell, dt, grid length, cut set); every single cu
         ">= 4 steps; distinct = distinct (cell, cut set) keys")
 ASSUMPTIONS = ["restart points are the grid times the one-shot run actually visited (read from the step log)",
                "the chunked run uses ONE Brownian object for all chunks; the one-shot run an equal-entropy twin"]
-REQUIRED_COUNTERS = ["chunked_runs", "extra_state_threaded", "cuts"]
+REQUIRED_COUNTERS = ["chunked_runs", "extra_state_threaded", "cuts", "clipped_last_step", "far_from_zero_time_axis"]
 
 
 def cases(tier, seed):
@@ -41,9 +41,15 @@ def run_case(case):
     d, m, B = 3, 2, 2
     sde = zoo.cell_sde(cell, d=d, m=m, seed=rng.randrange(10 ** 6), gscale=0.6)
     n = 9 if case["mode"] == "all" else 12
-    dt = rng.choice([0.1, 0.05, 0.125, 0.03])
-    t0 = rng.choice([0.0, -0.7, 1.3])
-    T = dt * n * rng.choice([1.0, 1.0, 0.97])  # sometimes the last step is clipped
+    dt = rng.choice([0.1, 0.05, 0.125, 0.03, 2.0 ** -10])
+    # (also time axes far from zero relative to the step: |t|/dt > 1e6)
+    t0 = rng.choice([0.0, -0.7, 1.3, 1500.0, -3000.0])
+    # the last step is clipped (span not a multiple of dt) in every single-cut case - one of the cuts is then the last
+    # grid point, so that the final chunk consists of the short step only - and in some of the others
+    clip = [0.97, 0.94, 0.55] if case["mode"] == "single" else [1.0, 1.0, 0.97]
+    T = dt * n * rng.choice(clip)
+    cnt["clipped_last_step"] = int(T != dt * n)
+    cnt["far_from_zero_time_axis"] = int(abs(t0) / dt > 1e6)
     ts = torch.tensor([t0, t0 + T])
     entropy = rng.randrange(1, 10 ** 9)
     y0 = torch.randn(B, d, generator=torch.Generator().manual_seed(case["rseed"]))
